@@ -211,9 +211,15 @@ def ops (tb : Tables) : DMOps St where
     | none => -1
     | some n => if unit == [109,115] then n else if unit == [115] then n * 1000 else -1
   -- `Fsm::invoke` with literal `type`, literal inline `<content>` holding a well-formed SCXML
-  -- document, no `namelist` / `<param>` / `idlocation` (the only form the c14 templates use): no
-  -- data-model call is made and the child session starts under the invoke's `id`
-  invoke st _ _ inv := { dm := st, started := if inv.id.isEmpty then none else some inv.id }
+  -- document, no `<param>` / `idlocation` (the only form the c14 templates use): the `namelist`
+  -- locations are read one after the other (`get_by_location`); the first one that is not a
+  -- declared variable with a value raises `error.execution` and the invoke is abandoned; otherwise
+  -- the child session starts under the invoke's `id`.  (The `loc` observations of these reads
+  -- are not part of the invoke outcome; the c14 harness leaves them out on both sides.)
+  invoke st _ _ inv :=
+    match inv.nameList.find? (fun n => match lookup st n with | some (some _) => false | _ => true) with
+    | some _ => { dm := st, raised := [errorExecution], started := none }
+    | none => { dm := st, started := if inv.id.isEmpty then none else some inv.id }
 
 /-- donedata of a final state: `evaluate_params` then `evaluate_content` of the trait -/
 def doneDataOf (tb : Tables) (st : St) (cfg : List Nat) (sid : Nat) : DMR St Str :=
